@@ -76,6 +76,14 @@ def run(rep, tier, driver):
         else:
             args = [file_arg() if rng.random() < 0.4 else lit() for _ in range(rng.randint(2, 6))]
         calls.append(({"fn": "cli", "args": args}, sh))
+    # literal arguments that stress the "is this a file?" test: longer than a file-name component may be (255 bytes), longer than a
+    # path may be, with path separators, naming a directory
+    long_ok = ["Man(a1-2)" * k + "Man" for k in (27, 28, 29, 30, 45)] + ["Glc(a1-4)" * 460 + "Glc"]
+    long_bad = ["Glc" + "2Ac" * 100, "Xyz" * 120, "Man(a1-2)" * 30 + "Unk"]
+    odd = ["./Glc", "a/b/Man", "/", ".", "..", "~", "/tmp", "Glc/", "C:\\Glc"]
+    for xs in ([long_ok[0]], [long_ok[3]], [long_bad[0]], [long_ok[2], "Glc", long_bad[1]], [{"file": "Glc\nMan\n"}, long_ok[4], "Gal"], ["Glc", long_bad[2], {"file": "Gal\n"}],
+               [long_ok[5]], ["Gal", long_ok[5]], [odd[0], "Glc"], [odd[1], odd[2], "Man"], [odd[3]], ["Glc", odd[4], odd[5]], [odd[6], "Glc"], [odd[7], odd[8]], [long_ok[1], long_ok[1]]):
+        calls.append(({"fn": "cli", "args": list(xs)}, "long-or-pathlike-literal"))
     rep.rule = ("argument lists mixing literal glycans (convertible, failing, with commas) and files (empty, blank lines, padded lines, LF/CRLF): single "
                 "literal, single file, single empty file, several of each; run through glyles.__main__.main in-process and `python -m glyles` in a "
                 "scratch directory; Spec: the -o file has one line 'glycan,SMILES' per glycan of args.flatMap(expand), in order, SMILES = "
